@@ -41,6 +41,8 @@ fn history(rng: &mut Rng, initial: usize, max: usize, with_panics: bool, abort: 
     let mut next_id = 0usize;
     let mut races = 0usize;
     let mut panics = 0usize;
+    let started_total = Arc::new(AtomicUsize::new(0));
+    let mut submitted_total = 0usize;
     let mut quiet_points = 0usize;
     let patience = Duration::from_secs(10);
     let phases = rng.range(2, 5);
@@ -53,7 +55,12 @@ fn history(rng: &mut Rng, initial: usize, max: usize, with_panics: bool, abort: 
                 // a connection handler that panics (a fault in interface code): the connection
                 // is gone at once, so it never counts as outstanding; the pool must be none the
                 // worse for it
-                pool.execute(|| panic!("handler panic injected by the C14 stress workload"));
+                let st2 = started_total.clone();
+                submitted_total += 1;
+                pool.execute(move || {
+                    st2.fetch_add(1, Ordering::SeqCst);
+                    panic!("handler panic injected by the C14 stress workload")
+                });
                 log.push("submit a job that panics".into());
                 panics += 1;
                 // let it happen before the next operation half of the time
@@ -71,10 +78,12 @@ fn history(rng: &mut Rng, initial: usize, max: usize, with_panics: bool, abort: 
                 last_was_finish = true;
             } else {
                 let release = Arc::new(AtomicBool::new(false));
-                let (r2, s2, a2) = (release.clone(), in_service.clone(), abort.clone());
+                let (r2, s2, a2, st2) = (release.clone(), in_service.clone(), abort.clone(), started_total.clone());
+                submitted_total += 1;
                 let id = next_id;
                 next_id += 1;
                 pool.execute(move || {
+                    st2.fetch_add(1, Ordering::SeqCst);
                     s2.fetch_add(1, Ordering::SeqCst);
                     // `abort`: the history was given up by its watchdog; its jobs must not keep spinning
                     while !r2.load(Ordering::Relaxed) && !a2.load(Ordering::Relaxed) {
@@ -127,6 +136,13 @@ fn history(rng: &mut Rng, initial: usize, max: usize, with_panics: bool, abort: 
                 ));
                 break 'outer;
             }
+        }
+        // the pool's own account of its load (what listen()'s idle timeout looks at) must settle
+        // at the number of jobs it was given and has not finished
+        // (only when nothing is waiting in the queue: queued jobs count as busy by design)
+        if started_total.load(Ordering::SeqCst) == submitted_total && !wait_until(|| pool.num_busy() == in_service.load(Ordering::SeqCst), Duration::from_secs(10)) {
+            verdict = Err(format!("every submitted job has been dequeued and {} are in service, but the pool's busy counter settled at {} (initial {}, max {})", in_service.load(Ordering::SeqCst), pool.num_busy(), initial, max));
+            break 'outer;
         }
         if pool.workers() > max.max(1) {
             verdict = Err(format!("{} worker threads exist, max is {}", pool.workers(), max));
